@@ -25,6 +25,11 @@ TRUSTED = ['CPython ast', 'sa/pysym.py path walker', 'frozen dataclasses (checke
 EN, JA, UNI, CAT = rg.EN, rg.JA, ru.UNI, 'depccg/cat.py'
 
 
+def _parents_of(n):
+    from ..core import parents
+    return parents(n)
+
+
 def closure_functions(repo):
     out = []
     for rel in (EN, JA):
@@ -127,7 +132,7 @@ def r_gate(repo, rep):
                 continue
             conds = [(c, p_) for c, p_, _ in st.conds]
             applies = [s_ for e in st.events for t in e[1:-1] if isinstance(t, tuple) for s_ in subterms(t)
-                       if s_[0] == 'call' and s_[1][0] == 'elem' and s_[1][1] == N('combinators')]
+                       if s_[0] == 'call' and s_[1][0] == 'elem' and rg.is_registry(s_[1][1])]
             for c_ in applies:
                 args_seen.add(c_[2])
             empty = (st.ret[0] == 'alloc' and st.ret[1] == 'list' and not any(
@@ -284,7 +289,16 @@ def check(repo, rep, tier):
     n_sites = ru.r_client_typestate(repo, rep, [EN, JA], R='R14.6')
     rep.floor('Unification(...) client sites', n_sites, 16)
     n_reads = 0
+    from ..pysym import VOCABULARY
     for mod, fn in closure_functions(repo):
+        if mod.rel in (EN, JA) and isinstance(getattr(fn, '_parent', None), ast.Module) and fn.name.startswith('_') and fn.name not in VOCABULARY \
+                and mod.aliases.get(fn.name, fn.name) not in VOCABULARY \
+                and any(isinstance(c, ast.Name) and c.id == fn.name and isinstance(c.ctx, ast.Load) and not any(p_ is fn for p_ in _parents_of(c))
+                        for c in ast.walk(mod.tree)):
+            # a private helper of a grammar module (result builder of a schema table, ...): the walker inlines it into the
+            # rule functions that call it, and its attribute reads are judged there, under the guards of the caller
+            rep.ok('R14.6', '%s:%s %s' % (mod.rel, fn.lineno, fn.name), '%s: private helper, shape-specific reads judged in its callers' % fn.name, nontrivial=False)
+            continue
         n_reads += ru.r_shape_safety(repo, rep, mod, fn, 'R14.6')
     rep.floor('shape-specific attribute reads judged', n_reads, 40)
     nf = r_feature_methods(repo, rep)
